@@ -22,3 +22,11 @@ add("C13", "exploration",
     "Reference-model monitor: products with 1-8 images over polarisation x scan combinations, every file carrying distinct pixels and line numbers; children of /, /imagery (names, order), /metadata, /summary, root attribute names and text values, coordinate promotion and removal of the bookkeeping attribute are compared with the model; summaries shuffled, CRLF, several hash seeds.",
     "Naming rule and volume attribute table are frozen documentation (vf/speclib.py).",
     "reference-model monitor at the DataTree boundary", "DESIGN.md §4 C13")
+add("C18", "fault_enumeration",
+    "Every damaged variant of seeded products (image cut at every record boundary and +-1 byte, inside the descriptor, mid-prefix, mid-data, random; leader / volume directory cut at boundaries and sampled or all lengths; each used file missing) crossed with rpc below/at/above the line count is planted on the tracing filesystem with an empty cache directory and opened by the real open_alos2: truncated => must raise, missing => must raise an OSError; promptness is decided on logical steps (reads and bytes requested), wall clock only yields inconclusive.",
+    "Exception type is constrained only for missing files. A returned tree on a truncated file is a violation and its loadable line count is reported.",
+    "fault enumeration (planted truncation / missing-file states) + event-log bound on reads", "DESIGN.md §4 C18")
+add("C19", "exploration",
+    "A deterministic scheduler owns the yield points of real concurrent DataArray loads (thread start, lock acquisition, open/seek/read/close of the tracing filesystem, each before it takes effect) and enumerates all interleavings of 2 threads x 1-2 chunks (thorough: also 3 threads) for the three scenarios of the property by depth-first search, plus seeded random schedules of larger mixed loads; every thread's values are compared bitwise with the sequential load and a state with no runnable thread is reported as deadlock.",
+    "Only scheduler-visible synchronisation (the SerializableLock used by ceos_alos2.xarray, replaced harness-side by a scheduler-aware subclass) can be pruned; a thread stuck on any other lock shows up as a join timeout => inconclusive. No dask.",
+    "deterministic scheduler enumerating interleavings of real loads; sequential reference oracle; enabled-set deadlock detection", "DESIGN.md §4 C19")
